@@ -26,6 +26,16 @@ theorem crlf_no_bare_lf (s : Bytes) : lfAfterCr false (crlfNormalize s) = true :
 theorem crlf_idempotent (s : Bytes) : crlfNormalize (crlfNormalize s) = crlfNormalize s :=
   crlfGo_id false _ (crlfGo_lfAfterCr false s)
 
+/-- Only lone LFs are turned into CRLF and nothing else changes: read by a reader for which CRLF
+    is the line break (`BodyDec.toLf`), the converted text is the original text — no octet is
+    dropped, added or reordered apart from the CR put before a lone LF. -/
+theorem crlf_only_line_endings (s : Bytes) : toLf (crlfNormalize s) = toLf s :=
+  toLfGo_crlfGo false s
+
+/-- non-vacuity: lone LF, CRLF, bare CR and a final LF in one text -/
+example : crlfNormalize (str "a\nb\r\nc\rd\n") = str "a\r\nb\r\nc\rd\r\n" ∧
+    toLf (str "a\r\nb\r\nc\rd\r\n") = str "a\nb\nc\rd\n" := by decide
+
 /-- The automatically chosen encoding is 7bit, quoted-printable or base64. -/
 theorem auto_range (isStr : Bool) (b : Bytes) :
     (bodyNew isStr b).1 = .sevenBit ∨ (bodyNew isStr b).1 = .quotedPrintable ∨ (bodyNew isStr b).1 = .base64 :=
